@@ -159,6 +159,10 @@ def run_one(m):
             rc, out = sh([work + "/target/verif/tlsverif", "run", pid, "--tier", "quick"], env=renv)
             sigs = [l.split("signature: ")[1] for l in out.splitlines() if "violation signature" in l][:3]
             res["checks"][pid] = {"exit": rc, "signatures": sigs}
+            if patch:
+                # what the check printed against this seeded change (read by tools/seed_meta.py)
+                keep = [l.replace(work, "<scratch>") for l in out.splitlines() if "violation signature" in l or l.startswith(("VIOLATION", "OK ", "INCONCLUSIVE", "KNOWN-FINDING"))]
+                open(os.path.join(os.path.dirname(patch), "check_%s.quick.out" % pid), "w").write("\n".join(keep[:12]) + "\n")
         own = props[0]
         res["status"] = "caught" if res["checks"][own]["exit"] == 1 else ("caught-by-other" if any(c["exit"] == 1 for c in res["checks"].values()) else "MISSED")
         if patch and os.path.exists(os.path.join(os.path.dirname(patch), "UNDETECTED")):
